@@ -494,6 +494,11 @@ class Aspire:
                 kwargs.setdefault("checkpoint_file_path", checkpoint_path)
                 kwargs.setdefault("checkpoint_every", checkpoint_every)
             with AspireFile(checkpoint_path, "a") as h5_file:
+                if "resume_from" not in kwargs and "checkpoint" in h5_file:
+                    # A new run starts in this file: the checkpoint of an
+                    # earlier run (possibly with another sampler or flow)
+                    # must not be mixed with this run's config and flow
+                    del h5_file["checkpoint"]
                 if checkpoint_save_config:
                     if "aspire_config" in h5_file:
                         del h5_file["aspire_config"]
@@ -510,13 +515,6 @@ class Aspire:
                     # from: replace an existing one
                     if "flow" in h5_file:
                         del h5_file["flow"]
-                        if (
-                            "resume_from" not in kwargs
-                            and "checkpoint" in h5_file
-                        ):
-                            # An older checkpoint was weighted under the
-                            # flow that was just replaced
-                            del h5_file["checkpoint"]
                     self.save_flow(h5_file)
                     saved_flow = True
                     if defaults is not None:
